@@ -256,11 +256,13 @@ Lemma step_trimmed s b r : graph b = true -> graph_end (b :: r) ->
   step s (b :: r) =
     if beqb b ";"%byte then Some s
     else if starts_with (bs "classes") (b :: r) then
-      match parse_classes (b :: r) with Some (cs, _) => Some (set_classes s (s_classes s ++ cs)) | None => None end
+      match parse_classes (b :: r) with Some (cs, []) => Some (set_classes s (s_classes s ++ cs)) | _ => None end
     else if starts_with (bs "ua_os") (b :: r) then
-      match parse_ua_os (b :: r) with Some (us, _) => Some (set_ua s (s_ua s ++ us)) | None => None end
+      match parse_ua_os (b :: r) with Some (us, []) => Some (set_ua s (s_ua s ++ us)) | _ => None end
     else if beqb b "["%byte && ends_with_b "]"%byte (b :: r) then
-      match parse_module (b :: r) with Some (md, _) => Some (set_mod s (Some md)) | None => None end
+      match parse_module (b :: r) with
+      | Some (md, []) => if is_known_module md then Some (set_mod s (Some md)) else None
+      | _ => None end
     else
       match s_mod s with
       | Some (m, d) =>
@@ -356,13 +358,34 @@ Qed.
 Lemma space0_term k : term k = true -> space0 k = k.
 Proof. intros H. destruct (term_cases k H) as [->|[[r ->]|[r ->]]]; reflexivity. Qed.
 
-Lemma parse_key_value_plain x k : plain_rule x = true -> term k = true ->
+Lemma p0f_name_is_name_char b : p0f_name_char b = is_name_char b.
+Proof. destruct b; reflexivity. Qed.
+
+Lemma word_p0f_model x : word p0f_name_char x = true -> x <> [] /\ forallb is_name_char x = true.
+Proof.
+  unfold word. intros H. apply andb_true_iff in H as [Hne H]. split; [destruct x; [discriminate | congruence]|].
+  rewrite forallb_forall in *. intros b Hb. rewrite <- p0f_name_is_name_char. auto.
+Qed.
+
+Lemma term_stops_name k : term k = true -> stops is_name_char k = true.
+Proof. intros H. destruct (term_cases k H) as [->|[[r ->]|[r ->]]]; reflexivity. Qed.
+
+Lemma span1_name x k : word p0f_name_char x = true -> stops is_name_char k = true -> span1 is_name_char (x ++ k) = Some (x, k).
+Proof.
+  intros W Hk. destruct (word_p0f_model x W) as [Hne Ha]. unfold span1. rewrite span_app by assumption.
+  destruct x; [congruence | reflexivity].
+Qed.
+
+Lemma parse_key_value_rule x k : rule_ok x = true -> term k = true ->
   parse_key_value (render_rule x ++ k) = Some (x, k).
 Proof.
-  destruct x as [name [v|]]; unfold plain_rule; cbn [fst snd]; rewrite ?andb_false_r; [discriminate|].
-  rewrite andb_true_r. intros Hx Hk. unfold render_rule. cbn [fst snd]. rewrite app_nil_r.
-  unfold parse_key_value. rewrite alphanumeric1_word by assumption.
-  rewrite !(space0_term k Hk). destruct (term_cases k Hk) as [->|[[r ->]|[r ->]]]; reflexivity.
+  destruct x as [name [v|]]; unfold rule_ok, render_rule; cbn [fst snd]; intros H Hk.
+  - apply andb_true_iff in H as [Hn Hv]. unfold parse_key_value. rewrite <- !app_assoc.
+    rewrite span1_name by (assumption || reflexivity). rewrite strip_prefix_app.
+    rewrite span1_name by (assumption || reflexivity). rewrite strip_prefix_app. reflexivity.
+  - rewrite andb_true_r in H. rewrite app_nil_r. unfold parse_key_value.
+    rewrite span1_name by (auto using term_stops_name).
+    destruct (term_cases k Hk) as [->|[[r ->]|[r ->]]]; reflexivity.
 Qed.
 
 Lemma join_first_graph (cs : list bytes) :
@@ -416,29 +439,30 @@ Proof.
   match goal with |- (if ?c then _ else _) = _ => change c with true end. cbv iota. now rewrite P.
 Qed.
 
-Lemma step_ua_os s rs : nonempty_list rs = true -> forallb plain_rule rs = true ->
+Lemma ua_join_nonempty rs : nonempty_list rs = true -> forallb rule_ok rs = true -> join comma (map render_rule rs) <> [].
+Proof.
+  intros Hne Hw. destruct rs as [|[n v] rs]; [discriminate|]. rewrite forallb_forall in Hw.
+  specialize (Hw (n, v) (or_introl eq_refl)). unfold rule_ok in Hw. cbn [fst snd] in Hw.
+  apply andb_true_iff in Hw as [Hw _]. destruct (word_p0f_model n Hw) as [Hnn _].
+  destruct n as [|n0 n']; [congruence|].
+  destruct rs as [|r2 rs]; cbn [map]; [cbn [join]|rewrite join_cons2]; unfold render_rule; cbn [fst snd app]; discriminate.
+Qed.
+
+Lemma step_ua_os s rs : nonempty_list rs = true -> forallb rule_ok rs = true ->
+  clean (join comma (map render_rule rs)) = true ->
   step s (render_item (IUaOs rs)) = Some (set_ua s (s_ua s ++ rs)).
 Proof.
-  intros Hne Hw. assert (Hn : map render_rule rs <> []) by (destruct rs; [discriminate | cbn; congruence]).
+  intros Hne Hw Hcl. pose proof (ua_join_nonempty rs Hne Hw) as Hn.
+  destruct (clean_cons (join comma (map render_rule rs))) as (c & r & E & Hc & Hge); [destruct (join comma (map render_rule rs)); [congruence | reflexivity] | assumption|].
   rewrite forallb_forall in Hw.
-  assert (Hr : forall x, In x rs -> render_rule x = fst x /\ word alnum (fst x) = true).
-  { intros [name [v|]] Hx; specialize (Hw _ Hx); unfold plain_rule in Hw; cbn [fst snd] in *;
-      rewrite ?andb_false_r in Hw; [discriminate|]. rewrite andb_true_r in Hw.
-    unfold render_rule. cbn [fst snd]. now rewrite app_nil_r. }
-  assert (Hge : graph_end (join comma (map render_rule rs))).
-  { apply graph_end_join; [assumption|]. intros t Ht. apply in_map_iff in Ht as (x & <- & Hx).
-    destruct (Hr x Hx) as [-> W]. now destruct (word_alnum_parts _ W) as (_ & G & _). }
-  destruct (join_first_graph (map render_rule rs) Hn) as (c & r & E & Hc).
-  { intros t Ht. apply in_map_iff in Ht as (x & <- & Hx). destruct (Hr x Hx) as [-> W].
-    destruct (word_alnum_parts _ W) as (_ & _ & c & r & E & G & _). eauto. }
   assert (P : parse_ua_os (bs "ua_os = " ++ join comma (map render_rule rs)) = Some (rs, [])).
   { unfold parse_ua_os. change (bs "ua_os = " ++ join comma (map render_rule rs)) with (bs "ua_os" ++ bs " = " ++ join comma (map render_rule rs)).
     rewrite strip_prefix_app. rewrite eq_value. rewrite space0_sp. rewrite E, space0_graph by assumption. rewrite <- E.
     rewrite <- (app_nil_r (join comma (map render_rule rs))).
     apply separated_list0_print_gen; [reflexivity | reflexivity | intros Z; rewrite Z in Hne; discriminate |].
-    intros x k' Hx Hk'. apply parse_key_value_plain; auto. }
+    intros x k' Hx Hk'. apply parse_key_value_rule; auto. }
   cbn [render_item]. change (bs ",") with comma.
-  pose proof (graph_end_app (bs "ua_os = ") _ Hge) as He'. cbn [bs bs_to app] in He', P |- *.
+  pose proof (graph_end_app (bs "ua_os = ") _ Hge) as He'. rewrite <- E in He'. cbn [bs bs_to app] in He', P |- *.
   rewrite step_trimmed; [| reflexivity | exact He'].
   change (beqb "u"%byte ";"%byte) with false. cbv iota.
   match goal with |- (if ?c then _ else _) = _ => change c with false end. cbv iota.
@@ -460,17 +484,17 @@ Proof. intros ->. destruct tbl; [reflexivity|]. unfold omap_st. reflexivity. Qed
 
 Lemma step_item s cur x :
   s_mod s = mod_of cur -> cur <> Some SecOther ->
-  item_ok x = true -> fits cur x = true -> known_item x = false ->
+  item_ok x = true -> fits cur x = true ->
   step s (render_item x) = abs_step s cur x.
 Proof.
-  intros Hm Hcur Hok Hfit Hkn. destruct x as [|t|cs|rs|sc|l|n|g|g|v|v]; cbn [item_ok known_item] in *.
+  intros Hm Hcur Hok Hfit. destruct x as [|t|cs|rs|sc|l|n|g|g|v|v]; cbn [item_ok] in *.
   - (* blank *) reflexivity.
   - (* comment *)
     cbn [render_item bs bs_to app]. rewrite step_trimmed; [reflexivity | reflexivity |].
     destruct t as [|b t]; [exists [], ";"%byte; split; reflexivity|].
     apply graph_end_cons. apply clean_end_graph_end; [assumption | congruence].
   - (* classes *) apply andb_true_iff in Hok as [H1 H2]. now apply step_classes.
-  - (* ua_os *) apply andb_true_iff in Hok as [H1 _]. apply negb_false_iff in Hkn. now apply step_ua_os.
+  - (* ua_os *) apply andb_true_iff in Hok as [Hok H3]. apply andb_true_iff in Hok as [H1 H2]. now apply step_ua_os.
   - (* section *) destruct sc; try discriminate; reflexivity.
   - (* label *)
     destruct (render_label_cons l) as (b & r & E & Hb). pose proof (graph_end_render_label l Hok) as He.
@@ -534,12 +558,11 @@ Qed.
 
 Lemma run_lines_render d : forall s cur,
   s_mod s = mod_of cur -> cur <> Some SecOther ->
-  forallb item_ok d = true -> ctx_ok cur d = true -> known_doc d = false ->
+  forallb item_ok d = true -> ctx_ok cur d = true ->
   run_lines s (render_doc d) = run_abs s cur d.
 Proof.
-  induction d as [|x d IH]; intros s cur Hm Hcur Hok Hctx Hkn; [reflexivity|].
-  cbn in Hok, Hctx, Hkn. apply andb_true_iff in Hok as [Hx Hok]. apply andb_true_iff in Hctx as [Hf Hctx].
-  apply orb_false_iff in Hkn as [Hk Hkn].
+  induction d as [|x d IH]; intros s cur Hm Hcur Hok Hctx; [reflexivity|].
+  cbn in Hok, Hctx. apply andb_true_iff in Hok as [Hx Hok]. apply andb_true_iff in Hctx as [Hf Hctx].
   cbn [render_doc map run_lines run_abs]. rewrite (step_item s cur x) by assumption.
   destruct (abs_step s cur x) as [s'|] eqn:E; [|reflexivity].
   apply IH; try assumption.
@@ -666,9 +689,9 @@ Qed.
 
 (* ================= the theorem on lines ================= *)
 Theorem load_lines_render d :
-  doc_ok d = true -> known_doc d = false -> load_lines (render_doc d) = flatten d.
+  doc_ok d = true -> load_lines (render_doc d) = flatten d.
 Proof.
-  intros Hok Hkn. unfold doc_ok in Hok. apply andb_true_iff in Hok as [Hi Hc].
+  intros Hok. unfold doc_ok in Hok. apply andb_true_iff in Hok as [Hi Hc].
   unfold load_lines. rewrite (run_lines_render d st0 None) by (try assumption; try reflexivity; discriminate).
   rewrite run_abs_mk_state. unfold mk_state, flatten.
   destruct (table_of (tcp_entries SecTQ None d)); destruct (table_of (tcp_entries SecTS None d));
@@ -767,11 +790,11 @@ Proof.
   apply beqb_neq. intros ->. discriminate.
 Qed.
 
-Lemma render_item_line_ok x : item_ok x = true -> known_item x = false -> line_ok (render_item x) = true.
+Lemma render_item_line_ok x : item_ok x = true -> line_ok (render_item x) = true.
 Proof.
-  intros Hok Hkn. unfold line_ok. fold (nolf (render_item x)).
+  intros Hok. unfold line_ok. fold (nolf (render_item x)).
   assert (H : nolf (render_item x) = true /\ (render_item x = [] \/ graph_end (render_item x))).
-  { destruct x as [|t|cs|rs|sc|l|n|g|g|v|v]; cbn [item_ok known_item render_item] in *.
+  { destruct x as [|t|cs|rs|sc|l|n|g|g|v|v]; cbn [item_ok render_item] in *.
     - split; [reflexivity | now left].
     - split; [cbn; now apply nolf_clean_end|]. right. destruct t as [|b t]; [exists [], ";"%byte; split; reflexivity|].
       apply graph_end_cons. apply clean_end_graph_end; [assumption | congruence].
@@ -780,18 +803,14 @@ Proof.
         intros c Hc. destruct (word_alnum_parts c (Hw c Hc)) as (A & _). now apply nolf_alnum.
       + right. apply graph_end_app. apply graph_end_join; [destruct cs; [discriminate | congruence]|].
         intros c Hc. now destruct (word_alnum_parts c (Hw c Hc)) as (_ & G & _).
-    - apply andb_true_iff in Hok as [Hne _]. apply negb_false_iff in Hkn. rewrite forallb_forall in Hkn.
-      assert (Hr : forall r, In r rs -> render_rule r = fst r /\ word alnum (fst r) = true).
-      { intros [name [v|]] Hx; specialize (Hkn _ Hx); unfold plain_rule in Hkn; cbn [fst snd] in *;
-          rewrite ?andb_false_r in Hkn; [discriminate|]. rewrite andb_true_r in Hkn.
-        unfold render_rule. cbn [fst snd]. now rewrite app_nil_r. }
+    - apply andb_true_iff in Hok as [Hok Hcl]. apply andb_true_iff in Hok as [Hne Hw].
+      pose proof (ua_join_nonempty rs Hne Hw) as Hn. change (bs ",") with comma in *.
+      destruct (clean_cons (join comma (map render_rule rs))) as (c & r & E & Hc & Hge);
+        [destruct (join comma (map render_rule rs)); [congruence | reflexivity] | assumption|].
       split.
-      + rewrite nolf_app. apply andb_true_iff. split; [reflexivity|]. apply nolf_join; [reflexivity|].
-        intros t Ht. apply in_map_iff in Ht as (r & <- & Hx). destruct (Hr r Hx) as [-> W].
-        destruct (word_alnum_parts _ W) as (A & _). now apply nolf_alnum.
-      + right. apply graph_end_app. apply graph_end_join; [destruct rs; [discriminate | cbn; congruence]|].
-        intros t Ht. apply in_map_iff in Ht as (r & <- & Hx). destruct (Hr r Hx) as [-> W].
-        now destruct (word_alnum_parts _ W) as (_ & G & _).
+      + rewrite nolf_app. apply andb_true_iff. split; [reflexivity|]. unfold clean in Hcl. apply andb_true_iff in Hcl as [Hcl _].
+        now apply nolf_clean_end.
+      + right. apply graph_end_app. now rewrite E.
     - destruct sc; try discriminate; (split; [reflexivity | right]);
         [exists (bs "[tcp:request"), "]"%byte | exists (bs "[tcp:response"), "]"%byte | exists (bs "[http:request"), "]"%byte
         | exists (bs "[http:response"), "]"%byte | exists (bs "[mtu"), "]"%byte]; split; reflexivity.
@@ -811,19 +830,17 @@ Proof.
 Qed.
 
 Lemma lines_render_text d :
-  forallb item_ok d = true -> known_doc d = false -> lines (render_text d) = render_doc d.
+  forallb item_ok d = true -> lines (render_text d) = render_doc d.
 Proof.
-  intros Hok Hkn. unfold render_text. apply lines_unlines. unfold render_doc.
+  intros Hok. unfold render_text. apply lines_unlines. unfold render_doc.
   rewrite forallb_forall. intros l Hl. apply in_map_iff in Hl as (x & <- & Hx).
-  rewrite forallb_forall in Hok. apply render_item_line_ok; [now apply Hok|].
-  unfold known_doc in Hkn. destruct (known_item x) eqn:E; [|reflexivity].
-  assert (existsb known_item d = true) by (apply existsb_exists; eauto). congruence.
+  rewrite forallb_forall in Hok. apply render_item_line_ok. now apply Hok.
 Qed.
 
 Theorem load_render_text d :
-  doc_ok d = true -> known_doc d = false -> load (render_text d) = flatten d.
+  doc_ok d = true -> load (render_text d) = flatten d.
 Proof.
-  intros Hok Hkn. unfold load. rewrite lines_render_text; [now apply load_lines_render | | assumption].
+  intros Hok. unfold load. rewrite lines_render_text; [now apply load_lines_render|].
   unfold doc_ok in Hok. now apply andb_true_iff in Hok as [Hi _].
 Qed.
 
@@ -891,9 +908,10 @@ Qed.
 Lemma flatten_sig_before_label g : flatten [ISection SecTQ; ITcpSig g] = None.
 Proof. reflexivity. Qed.
 
-(* ================= known class: witness ================= *)
-(* the bundled ua_os line in miniature: two rules are written, the bracketed one is cut off *)
+(* ================= former known class (C06-list-remainder, repaired): the witness now agrees ================= *)
+(* the bundled ua_os line in miniature (formerly the bracketed rule and what follows were cut off) *)
 Definition ua_witness : list item := [ISection SecHQ; IUaOs [(bs "Linux", None); (bs "iOS", Some (bs "iPad")); (bs "BSD", None)]].
-Lemma ua_witness_refuted :
-  doc_ok ua_witness = true /\ known_doc ua_witness = true /\ load (render_text ua_witness) <> flatten ua_witness.
-Proof. repeat split; try reflexivity. vm_compute. discriminate. Qed.
+Lemma ua_witness_former_witness_agrees :
+  doc_ok ua_witness = true /\ load (render_text ua_witness) = flatten ua_witness /\
+  (exists d, flatten ua_witness = Some d /\ length (db_ua_os d) = 3%nat).
+Proof. vm_compute. repeat split. eexists; split; reflexivity. Qed.
